@@ -65,7 +65,7 @@ def plan(ch, tier):
     # seconds; a host that freezes for longer than those is a fault the property does not ask MPF to survive
     knobs["max_stall_index"] = min(knobs["max_stall_index"], 4)
     avail = [k for k, t in TOPOLOGIES.items() if os.path.isdir(os.path.join(VERIF, "machines", t["machine"]))]
-    topo = ch.weighted("topo", [(k, 2 if k in ("t9", "t8") else 1) for k in avail])
+    topo = ch.weighted("topo", [(k, 3 if k == "t7" else 2 if k in ("t9", "t8") else 1) for k in avail])
     if os.environ.get("VERIF_FORCE_TOPO") in avail:      # debugging aid: concentrate a batch on one topology
         topo = os.environ["VERIF_FORCE_TOPO"]
     nb = ch.pick("nballs", [3, 2, 4, 1])
@@ -80,6 +80,16 @@ def plan(ch, tier):
     if TOPOLOGIES[topo]["manual"]:
         kinds += [("plunge", 5)]
     bs_mode = topo == "t5" and ch.flag("bs_mode", 0.4)
+    if topo == "t7":
+        # a ball is requested for the staging device itself (it keeps it until the playfield asks); ejects between devices
+        # may lose their ball to the playfield (the path is then restored by a new request)
+        wk["p_stray"] = ch.pick("p_stray", [0.0, 0.3, 0.2])
+        if wk["p_stray"]:
+            nb = 4      # spare balls at home, so that a lost ball's path can usually be restored
+        kinds += [("request_mid", 10 if wk["p_stray"] else 4)]
+        if wk["p_stray"]:
+            wk["p_eject_fail"] = max(wk["p_eject_fail"], 0.3)
+            kinds += [("add_ball", 4)]
     if topo == "t9":
         # two balls draining right after each other, and requests while the last ball rests on the trough's entrance
         kinds += [("double_drain", 4), ("add_ball", 4), ("pair_request", 6)]
@@ -120,7 +130,13 @@ def plan(ch, tier):
     lane_ball = topo == "t4" and nb >= 2 and ch.flag("lane_ball_at_boot", 0.5)
     # two feeds: more balls may be requested than the machine has (a legal use of playfield.add_ball: the requests
     # stay queued until balls come home); a lane whose own feed is empty then waits, the other one must still be served
-    oversub = "trough_b" in TOPOLOGIES[topo] and ch.flag("oversubscribe", 0.5)
+    oversub = ("trough_b" in TOPOLOGIES[topo] and ch.flag("oversubscribe", 0.5)) or \
+        (topo == "t1" and ch.flag("oversubscribe_t1", 0.3))
+    if oversub:
+        # several balls requested in one call, more than are home at that moment
+        for i in range(len(ops)):
+            if i and ops[i]["op"] in ("add_ball", "request", "wait") and ch.flag("add_balls_n", 0.5):
+                ops[i]["op"] = "add_balls_n"
     if lane_ball and ch.flag("lane_plunge_before_game", 0.5):
         # attract mode: somebody plunges the resting ball before any game was started
         ops[0]["op"] = ch.pick("lane_first_op", ["plunge", "wait"])
@@ -176,7 +192,8 @@ def execute(ctx, plan, prop):
             # booked another ball's entry as its own ejected ball coming back, available_balls of that device may be
             # off; its physical count (balls) is still judged
             if d.balls < 0 or (d.available_balls < 0 and d.name not in world.ambiguous_devs):
-                viol("count_negative", d.name, "%s: balls=%d available_balls=%d counted=%d state=%s at %.3f (event %s)" % (d.name, d.balls, d.available_balls, d.counted_balls, d.state, sim.now, "after callback"))
+                viol("count_negative", d.name + (" after_lost_ball_without_spare" if restore_failed[0] and d.balls >= 0 else ""),
+                     "%s: balls=%d available_balls=%d counted=%d state=%s at %.3f (event %s)" % (d.name, d.balls, d.available_balls, d.counted_balls, d.state, sim.now, "after callback"))
             if d.balls > d.capacity:
                 viol("count_above_capacity", d.name, "%s: balls=%d capacity=%d at %.3f" % (d.name, d.balls, d.capacity, sim.now))
         if pf.balls < 0 and pf.balls != neg_seen[0] and not world.ambiguous_reentries:
@@ -272,10 +289,58 @@ def execute(ctx, plan, prop):
 
     failed_events = []
     broken = set()
+    restore_failed = [0]
+    follow_ups = [2]
+
+    def upstream(dname):
+        out, todo = set(), [dname]
+        while todo:
+            cur = todo.pop()
+            for i in world.devs.values():
+                if i.target.name == cur and i.name not in out:
+                    out.add(i.name)
+                    todo.append(i.name)
+        return out
+
+    def starved(d):
+        """A device that waits for a ball which none of its sources physically has (every ball is on the playfield or
+        kept elsewhere): nothing can be served until a ball comes home, which only the player can bring about."""
+        if d.state != "waiting_for_ball" or world.count(d.name):
+            return False
+        return not any(world.count(u) for u in upstream(d.name))
+
 
     def ev_listener(name, ev_type, cb, kwargs):
         if name.startswith("ball_save_") and name.endswith("_saving_ball"):
             ctx.probe("ball_saved")
+        if name.startswith("balldevice_") and name.endswith("_ball_missing") and name != "balldevice_ball_missing":
+            # MPF gives a ball up for lost. When no other ball is home at that moment the path of the request it was
+            # travelling for cannot be restored (MPF logs "Failed to restore the path" / queues the re-request)
+            ctx.probe("ball_given_up_for_lost")
+            src = name[len("balldevice_"):-len("_ball_missing")]
+            chain_devs = [src] + sorted(upstream(src))
+            if not any(world.count(u) for u in chain_devs) or \
+                    not any(m.ball_devices[u].available_balls > 0 for u in chain_devs):
+                # (no ball home, or every ball that is home is already promised to another request)
+                restore_failed[0] += 1
+                ctx.probe("lost_ball_with_no_spare_ball_home")
+            elif "bd_mid" in m.ball_devices and follow_ups[0] > 0:
+                # the path was restored with a spare ball; once that has settled, ask for a ball again
+                follow_ups[0] -= 1
+
+                def follow_up():
+                    mid = m.ball_devices["bd_mid"]
+                    if m.game is None:
+                        return
+                    if mid.balls + mid.requested_balls + mid.available_balls == 0 and world.count("bd_mid") == 0 and mid.state == "idle" \
+                            and sum(world.count(d.name) for d in devices) > 0:
+                        ctx.probe("request_after_restored_path")
+                        mid.request_ball()
+                    elif can_add():
+                        ctx.probe("request_after_restored_path")
+                        pf.add_ball()
+                        m.game.balls_in_play += 1
+                world._later(20.0, follow_up)
         if name.endswith("_ball_eject_failed"):
             failed_events.append((sim.now, name[len("balldevice_"):-len("_ball_eject_failed")]))
         elif name.startswith("balldevice_") and name.endswith("_broken"):
@@ -384,6 +449,30 @@ def execute(ctx, plan, prop):
                     ctx.probe("request_while_busy")
                 pf.add_ball()
                 m.game.balls_in_play += 1
+        elif k == "request_mid":
+            mid = m.ball_devices["bd_mid"]
+            if m.game is not None and mid.balls + mid.requested_balls + mid.available_balls == 0 and world.count("bd_mid") == 0 \
+                    and mid.state == "idle" and sum(world.count(d.name) for d in devices) > 0:
+                ctx.probe("request_for_device")
+                mid.request_ball()
+        elif k == "add_balls_n":
+            n = 2 + op["pick"] % 2
+            if can_add(n) or (m.game is not None and m.game.balls_in_play >= 1 and plan.get("oversub")
+                              and pf.available_balls + n <= world.total() + 3):
+                before = pf.available_balls + sum(d.requested_balls for d in devices)
+                home = sum(world.count(d.name) for d in devices)
+                ctx.probe("multi_ball_request")
+                if home + 2 <= n:
+                    ctx.probe("multi_ball_request_short_by_two")
+                pf.add_ball(balls=n)
+                m.game.balls_in_play += n
+                after = pf.available_balls + sum(d.requested_balls for d in devices)
+                if prop == "C05" and after - before != n:
+                    # documented: "Return the number of balls found for eject. The remaining balls are queued for
+                    # eject when available" - every requested ball is either on its way or queued
+                    viol("request_not_served", "request_dropped", "playfield.add_ball(balls=%d): %d ball(s) were set up or "
+                         "queued, %d dropped (available_balls+queued requests %d -> %d)"
+                         % (n, after - before, n - (after - before), before, after))
         elif k == "request":
             if can_add():
                 d = m.ball_devices[topo["locks"][0]] if topo["locks"] else None
@@ -431,26 +520,10 @@ def execute(ctx, plan, prop):
         ctx.state(plan["topo"], tuple(sorted((d.name, d.balls, d.state) for d in devices)), pf.balls, m.game is not None)
 
     for e in world.eject_log:
-        if e["outcome"] in ("fallback", "stuck", "shake"):
+        if e["outcome"] in ("fallback", "stuck", "shake", "stray"):
             ctx.probe("eject_failed_physically")
         if e["outcome"] in ("fallback", "stuck", "late"):
             ctx.probe({"fallback": "fallback", "stuck": "stuck", "late": "late_arrival"}[e["outcome"]])
-
-    def upstream(dname):
-        out, todo = set(), [dname]
-        while todo:
-            cur = todo.pop()
-            for i in world.devs.values():
-                if i.target.name == cur and i.name not in out:
-                    out.add(i.name)
-                    todo.append(i.name)
-        return out
-
-    def starved(d):
-        """Over-subscribed machine: a device that waits for a ball which none of its sources physically has."""
-        if not plan.get("oversub") or d.state != "waiting_for_ball" or world.count(d.name):
-            return False
-        return not any(world.count(u) for u in upstream(d.name))
 
     # ---- faults stop; the physical world comes to rest ------------------------------------------------------
     in_workload[0] = False
@@ -473,7 +546,7 @@ def execute(ctx, plan, prop):
         if quiet >= 8.0:
             break
     if quiet < 8.0:
-        viol("never_rests", "rest", "physical world at rest=%r but devices %r did not come to idle within %.0f simulated "
+        viol("never_rests", "rest" + (" after_lost_ball_without_spare" if restore_failed[0] else ""), "physical world at rest=%r but devices %r did not come to idle within %.0f simulated "
              "seconds after the last fault; world=%r pf.balls=%d available=%d"
              % (world.at_rest(), [(d.name, d.state, d.balls) for d in devices], bound, world.summary(), pf.balls, pf.available_balls))
         return
@@ -508,7 +581,8 @@ def execute(ctx, plan, prop):
             ctx.probe("starved_lane_at_rest")
             continue
         if d.available_balls != d.balls or not d.outgoing_balls_handler.is_idle:
-            viol("device_not_idle", d.name + (" after_late_arrival" if d.name in world.late_targets else ""), "at rest %s: balls=%d available_balls=%d outgoing idle=%r"
+            viol("device_not_idle", d.name + (" after_lost_ball_without_spare" if restore_failed[0] else
+                                              " after_late_arrival" if d.name in world.late_targets else ""), "at rest %s: balls=%d available_balls=%d outgoing idle=%r"
                  % (d.name, d.balls, d.available_balls, d.outgoing_balls_handler.is_idle))
     if not broken and pf.available_balls != pf.balls and not plan.get("oversub"):
         src_has = sum(world.count(d.name) for d in devices)
